@@ -5,7 +5,7 @@
 Require Extraction.
 Require Import ExtrOcamlBasic.
 From FFSM2 Require Import Model.Bits Model.BitStream Model.BitArray Model.Arrays Model.TaskList Model.Plan
-  Model.Dispatch Model.Ancestors Model.Machine Model.Script Model.Multi.
+  Model.Dispatch Model.Ancestors Model.Machine Model.Script Model.Multi Proofs.LifeMonitor.
 Extraction Blacklist List String Nat.
 Extraction "model.ml"
   bitWidth contain
@@ -16,4 +16,5 @@ Extraction "model.ml"
   pd_init plan_append plan_append_with plan_remove_at plan_clear plan_tasks plan_first plan_last plan_nonempty pd_clear
   dispatch lower upper state_id
   deep_order
-  table_oracle wrun observe.
+  table_oracle wrun observe
+  cb_step.   (* the C01 lifecycle automaton of Proofs/LifeMonitor.v: proved to accept every model trace (run_accepted), run on implementation traces *)
